@@ -394,6 +394,16 @@ fn add_sibling_dynamics(g: &mut G, c: &mut Class) {
     let d = g.dynamic(true, 2);
     let k = g.rng.usize_in(2, 3);
     for i in 0..k { let mut di = d.clone(); if i > 0 { di.name = JS::new(&format!("call{i}")); if g.rng.bool() { di.desc = g.method_desc(); } } insns.push(Insn::InvokeDynamic(Box::new(di))); }
+    // method handles of different kinds on ONE member (getField / putField on one Fieldref, invokeVirtual / invokeSpecial on one
+    // Methodref): the pool entries share their reference_index
+    {
+        let f = g.member_ref(false);
+        let kinds: &[u8] = if g.rng.bool() { &[1, 3] } else { &[2, 4, 2] };
+        for k in kinds { insns.push(Insn::Ldc(Const::MethodHandle(Handle { kind: *k, member: f.clone(), itf: false }))); }
+        let mut m = g.member_ref(true); if m.name.ascii() == Some("<init>") { m.name = JS::new("run"); }
+        if m.owner.0.first() == Some(&b'[') { m.owner = JS::new("sib/Owner"); }
+        for k in [7u8, 5, 6] { insns.push(Insn::Ldc(Const::MethodHandle(Handle { kind: k, member: m.clone(), itf: false }))); }
+    }
     insns.push(Insn::Op(177));
     let code = Code { max_stack: 8, max_locals: 1, insns, ..Default::default() };
     c.methods.push(Method { access: 0x0008, name: JS::new("siblings$dyn"), desc: JS::new("()V"), code: Some(code), ..Default::default() });
